@@ -170,10 +170,14 @@ func (t *Object) isSubType(target, sub Type) bool {
 	if typeEqual(target, sub) {
 		return true
 	}
-	if st, ok := sub.(*NonNull); ok && typeEqual(target, st.Base) {
-		// As a special case, if the interface expects type T and the
-		// implementation is T!, the implementation satisfies the interface.
-		return true
+	if st, ok := sub.(*NonNull); ok {
+		// If the interface expects type T and the implementation is S! then
+		// the implementation satisfies the interface when S satisfies T. S
+		// can be T itself, an object for an interface or union T, or a list
+		// whose members satisfy the members of T.
+		if _, both := target.(*NonNull); !both {
+			return t.isSubType(target, st.Base)
+		}
 	}
 	switch tt := target.(type) {
 	case *Union:
